@@ -633,7 +633,9 @@ func (c *Ctx) RuleStoreThenError(fns []*ssa.Function) {
 				}
 				// the store happens inside a callee of the module whose own error is what this return hands on (directly, or
 				// behind `if err != nil`): the callee stores only where it returns nil if it passes this rule itself
-				if call, isCall := s.(*ssa.Call); isCall && c.calleeStoresOnlyOnSuccess(call, errv, b, 0) {
+				// … unless the call can run again before the return (a loop: the store of one iteration is in place when
+				// the next one fails)
+				if call, isCall := s.(*ssa.Call); isCall && !reachFrom(call.Block())[call.Block()] && c.calleeStoresOnlyOnSuccess(call, errv, b, 0) {
 					continue
 				}
 				c.add("violated", "C17.store", fn, s.Pos(), fmt.Sprintf("store through receiver can reach error return at line %d", c.Prog.Fset.Position(ret.Pos()).Line))
